@@ -30,10 +30,24 @@ def make_jobs(tier, seed):
 def run_job(job):
     rng = random.Random(job['seed'])
     spec = specgen.random_session(rng, minutes=rng.choice([240, 360, 600]) if job['i'] % 4 else 900)
+    cb = job['i'] % 3 == 1 and spec['config'].get('type') != 'spot'
+    if cb:
+        # the callback of every closing fill places a fresh resting order through the broker close to the fill price: the rest
+        # of that minute / chunk often reaches it (the order books of the symbol have just been reset by the strategy layer)
+        for r in spec['routes']:
+            r['script'].update(on_close_broker=True, on_close_broker_dist=rng.choice([0.0007, 0.0015, 0.003]),
+                               sl=r['script'].get('sl') or 0.004, tp=r['script'].get('tp') or 0.004, p_enter=0.3)
     out = session.run_session(spec)
+    if cb:
+        n_cb = sum(1 for e in out['events'] if e['k'] == 'submit' and e.get('hook') == 'on_close_position')
     viol, cnt = pathmon.check(out['events'], out['candles'], out['warm'], bool(spec['fast']),
                               aborted=out['error'] is not None)
     cnt['sessions'] = 1
+    if cb:
+        cnt['orders_submitted_from_on_close_position'] = n_cb
+        cnt['fills_of_orders_submitted_from_on_close_position'] = len(
+            {e['o'] for e in out['events'] if e['k'] == 'exec_ret' and e.get('status') == 'EXECUTED'} &
+            {e['o'] for e in out['events'] if e['k'] == 'submit' and e.get('hook') == 'on_close_position'})
     cnt['sessions_fast' if spec['fast'] else 'sessions_step'] = 1
     if out['error']:
         cnt['sessions_aborted:' + out['error']['type'] + ':' + out['error']['msg'][:60]] = 1
